@@ -41,10 +41,10 @@ impl ElemT for Td {
         });
         Td { id, stamp, val, serial }
     }
-    fn id(&self) -> u64 { self.id }
+    fn id(&self) -> u64 { chk_align(self, "Td"); self.id }
     fn stamp(&self) -> u64 { self.stamp }
     fn val(&self) -> u64 { self.val }
-    fn set_val(&mut self, v: u64) { self.val = v }
+    fn set_val(&mut self, v: u64) { chk_align(self, "Td"); self.val = v }
     fn serial(&self) -> u64 { self.serial }
 }
 impl Drop for Td {
@@ -82,10 +82,10 @@ macro_rules! plain_elem {
         impl ElemT for $name {
             const DROP: bool = false;
             fn mk(id: u64, stamp: u64, val: u64) -> Self { $name { id, stamp, val, $($extra: $einit),* } }
-            fn id(&self) -> u64 { self.id }
+            fn id(&self) -> u64 { chk_align(self, stringify!($name)); self.id }
             fn stamp(&self) -> u64 { self.stamp }
             fn val(&self) -> u64 { self.val }
-            fn set_val(&mut self, v: u64) { self.val = v }
+            fn set_val(&mut self, v: u64) { chk_align(self, stringify!($name)); self.val = v }
         }
     };
 }
@@ -111,10 +111,10 @@ impl ElemT for T2 {
     const DROP: bool = false;
     const HAS_VAL: bool = false;
     fn mk(id: u64, _s: u64, _v: u64) -> Self { T2(id as u16) }
-    fn id(&self) -> u64 { self.0 as u64 }
+    fn id(&self) -> u64 { chk_align(self, "T2"); self.0 as u64 }
     fn stamp(&self) -> u64 { 0 }
     fn val(&self) -> u64 { 0 }
-    fn set_val(&mut self, _v: u64) {}
+    fn set_val(&mut self, _v: u64) { chk_align(self, "T2") }
 }
 /// zero-sized element
 #[derive(Clone, Copy)]
@@ -127,6 +127,20 @@ impl ElemT for Tz {
     fn stamp(&self) -> u64 { 0 }
     fn val(&self) -> u64 { 0 }
     fn set_val(&mut self, _v: u64) {}
+}
+/// zero-sized, over-aligned element: every reference the library hands out must still be a
+/// multiple of 64 (Bucket::as_ptr returns a dangling ALIGNED pointer for zero-sized T)
+#[derive(Clone, Copy)]
+#[repr(align(64))]
+pub struct Tz64;
+impl ElemT for Tz64 {
+    const DROP: bool = false;
+    const HAS_VAL: bool = false;
+    fn mk(_id: u64, _s: u64, _v: u64) -> Self { Tz64 }
+    fn id(&self) -> u64 { chk_align(self, "Tz64"); 0 }
+    fn stamp(&self) -> u64 { 0 }
+    fn val(&self) -> u64 { 0 }
+    fn set_val(&mut self, _v: u64) { chk_align(self, "Tz64") }
 }
 
 pub type Tab<T> = HashTable<T, Ledger>;
@@ -184,6 +198,16 @@ pub fn dump_tab<T: ElemT>(m: &Tab<T>) -> String {
         None => s.push_str(" a=-"),
     }
     let _ = write!(s, " sing={}", d.singleton as u8);
+    // address tie (Model/Addr.v): first and last element slot relative to the block start; for a
+    // zero-sized T the (absolute) dangling address Bucket::as_ptr returns
+    if let (true, Some((_sz, _al, off))) = (d.bucket_mask != 0, d.alloc) {
+        if tsize > 0 {
+            let base = d.ctrl_addr - off;
+            let _ = write!(s, " ad={},{}", m.verif_bucket_addr(0) as i128 - base as i128, m.verif_bucket_addr(d.bucket_mask) as i128 - base as i128);
+        } else {
+            let _ = write!(s, " ad={},{}", m.verif_bucket_addr(0), m.verif_bucket_addr(d.bucket_mask));
+        }
+    }
     if d.bucket_mask != 0 && d.ctrl_addr % calign != 0 {
         s.push_str(" MISALIGNED_CTRL");
     }
@@ -776,6 +800,7 @@ pub fn run_table<T: ElemT>(lines: &[String], out: &mut String) {
             chk.push(format!("double drop of object serial {}", d));
         }
         chk.extend(aerr);
+        chk.extend(with_ctx(|c| std::mem::take(&mut c.misaligned_refs)));
         if T::DROP {
             let post = serials(&m);
             let live: Vec<u64> = with_ctx(|c| c.live.keys().copied().collect());
